@@ -105,15 +105,19 @@ struct World {
     strat: Arc<LruCacheStrategy>,
     _dir: tempfile::TempDir,
     cold_inserts: usize,
+    hard: usize,
 }
 const MAX_ELEMENTS: usize = 20_000;
 
 fn mk_world(scratch: &str) -> World {
+    mk_world_limit(scratch, 5000)
+}
+fn mk_world_limit(scratch: &str, hard: usize) -> World {
     std::fs::create_dir_all(scratch).unwrap();
     let dir = tempfile::Builder::new().prefix("w").tempdir_in(scratch).unwrap();
     let cfg = TieredEngineConfig {
-        hot_tier_max_size: 100_000,
-        hot_tier_hard_limit: 200_000,
+        hot_tier_max_size: hard,
+        hot_tier_hard_limit: hard,
         hot_tier_max_age: Duration::from_secs(3600),
         hnsw_max_elements: MAX_ELEMENTS,
         embedding_dimension: DIM,
@@ -129,7 +133,7 @@ fn mk_world(scratch: &str) -> World {
     let shared: Arc<dyn CacheStrategy> = strat.clone();
     let qc = Arc::new(QueryHashCache::new(16, 0.85));
     let eng = TieredEngine::new_with_shared_strategy(shared, qc, vec![], vec![], cfg).expect("engine");
-    World { eng: Arc::new(eng), strat, _dir: dir, cold_inserts: 0 }
+    World { eng: Arc::new(eng), strat, _dir: dir, cold_inserts: 0, hard }
 }
 
 /// (vector tag, token version, tag of the vector whose digest the token carries)
@@ -700,7 +704,7 @@ fn calls_b(st: &IdState) -> Vec<Call> {
 
 fn refresh_world(w: &mut World, scratch: &str) {
     if w.cold_inserts + 64 > MAX_ELEMENTS / 2 {
-        *w = mk_world(scratch);
+        *w = mk_world_limit(scratch, w.hard);
     }
 }
 
@@ -774,30 +778,41 @@ fn directed(w: &World, a: &Call, b: &Call, ordinal: u32) -> Directed {
 
 /// oracles over a directed pair: B's interval lies inside A's
 fn directed_oracles(sts: &[(u64, IdState)], a: &Call, ra: &Res, b: &Call, rb: &Res) -> Vec<(String, String)> {
+    seq_oracles(sts, &[("A", a, ra, 0, 3), ("B", b, rb, 1, 2)])
+}
+/// oracles over calls with given (invocation, response) instants
+fn seq_oracles(sts: &[(u64, IdState)], ops: &[(&str, &Call, &Res, u64, u64)]) -> Vec<(String, String)> {
     let mut fails = vec![];
-    for (who, r) in [("A", ra), ("B", rb)] {
+    for (who, _, r, _, _) in ops {
         if let Res::Bad(s) = r {
             fails.push(("unwritten-value".to_string(), format!("{}: {}", who, s)));
         }
     }
     let mut per_key: BTreeMap<u64, Vec<Hop>> = BTreeMap::new();
-    for (id, h) in key_ops(a, ra, 0, 3, "A").into_iter().chain(key_ops(b, rb, 1, 2, "B")) {
-        per_key.entry(id).or_default().push(h);
-    }
-    for (id, ops) in &per_key {
-        let init = sts.iter().find(|(i, _)| i == id).and_then(|(_, s)| s.cold.map(|c| c.0));
-        if !linearizable(init, ops) {
-            fails.push(("linearizability".to_string(), format!("id {}: initial {:?}, history {:?} has no linearisation", id, init, ops)));
+    for (who, c, r, i, e) in ops {
+        for (id, h) in key_ops(c, r, *i, *e, who) {
+            per_key.entry(id).or_default().push(h);
         }
     }
-    // pairs: some single version (initial or written by A / B) must carry both components
+    for (id, hops) in &per_key {
+        let init = sts.iter().find(|(i, _)| i == id).and_then(|(_, s)| s.cold.map(|c| c.0));
+        if !linearizable(init, hops) {
+            // the specific class: a delete of this id completed, nobody inserted this id, a later read finds it
+            let inserted = ops.iter().any(|(_, c, _, _, _)| matches!(c, Call::Insert(i, _, _) if i == id));
+            let deleted_at = ops.iter().filter(|(_, c, _, _, _)| matches!(c, Call::Delete(i) if i == id)).map(|x| x.4).min();
+            let read_after = hops.iter().any(|h| matches!(h.op, Kop::Read(Some(_))) && deleted_at.map_or(false, |d| h.inv > d));
+            let kind = if !inserted && read_after { "drain-resurrect" } else { "linearizability" };
+            fails.push((kind.to_string(), format!("id {}: initial {:?}, history {:?} has no linearisation", id, init, hops)));
+        }
+    }
+    // pairs: some single version (initial or written by a call) must carry both components
     let mut versions: Vec<(u64, u32, u32)> = sts.iter().filter_map(|(id, s)| s.cold.map(|c| (*id, c.0, c.1))).collect();
-    for c in [a, b] {
+    for (_, c, _, _, _) in ops {
         if let Call::Insert(id, v, m) = c {
             versions.push((*id, *v, *m));
         }
     }
-    for (who, r) in [("A", ra), ("B", rb)] {
+    for (who, _, r, _, _) in ops {
         for (id, v, m) in pairs_of(r) {
             if !versions.contains(&(id, v, m)) {
                 fails.push(("pairing".to_string(), format!("{} returned vector of write {} with metadata of write {} for id {}; versions of that id: {:?}", who, v, m, id, versions.iter().filter(|x| x.0 == id).collect::<Vec<_>>())));
@@ -805,6 +820,114 @@ fn directed_oracles(sts: &[(u64, IdState)], a: &Call, ra: &Res, b: &Call, rb: &R
         }
     }
     fails
+}
+
+// ------------------------------------------------------------------------------------------------
+// the emergency drain inside insert (hot_tier_hard_limit = 1): solo skeleton of the drain prologue and
+// directed schedules against delete / insert / read of the drained id, each followed by a point read
+// ------------------------------------------------------------------------------------------------
+const ID3: u64 = 9;
+fn run_drain_family(scratch: &str, cl: &mut Classes, dg: &Digests, out: &mut Out, case_no: &mut usize) {
+    let mut w = mk_world_limit(scratch, 1);
+    let e = |vec: u32, ver: u64, dig: u32| Ent { vec, ver, dig };
+    let states: Vec<(&str, IdState)> = vec![
+        ("limit/fresh-insert", IdState { cold: Some((1, 1, 1)), hot: Some((e(1, 1, 1), 1)), l1: None }),
+        ("limit/orphan-mirror", IdState { cold: None, hot: Some((e(1, 1, 1), 1)), l1: None }),
+        ("limit/stale-mirror+l1", IdState { cold: Some((2, 2, 2)), hot: Some((e(1, 1, 1), 1)), l1: Some(e(1, 1, 1)) }),
+    ];
+    let cold_only = IdState { cold: Some((4, 4, 1)), hot: None, l1: None };
+    let ins = Call::Insert(ID3, 11, 11);
+    let follow = Call::Query(ID);
+    for (sname, st) in &states {
+        let sts: Vec<(u64, IdState)> = vec![(ID, st.clone()), (ID2, cold_only.clone()), (ID3, IdState::default())];
+        let mut pairs: Vec<(Call, Call)> = vec![(Call::Delete(ID), ins.clone())];
+        for b in [Call::Delete(ID), Call::Insert(ID, 12, 12), Call::Query(ID)] {
+            pairs.push((ins.clone(), b));
+        }
+        let mut solo_done = false;
+        for (a, b) in pairs {
+            refresh_world(&mut w, scratch);
+            for (id, s) in &sts {
+                plant(&mut w, *id, s);
+            }
+            let (ra, evs, me) = traced(&w, &a);
+            let sk = skeleton(cl, &evs, me);
+            if a == ins && !solo_done {
+                solo_done = true;
+                let post: Result<Vec<(u64, IdState)>, String> = sts.iter().map(|(id, _)| observe(&w, dg, *id).map(|s| (*id, s))).collect();
+                let id_no = *case_no;
+                *case_no += 1;
+                out.hist("solo/insert-at-hard-limit");
+                let mut case = json!({"case": id_no, "kind": "solo", "hard_limit": 1, "state_name": sname,
+                    "states": sts.iter().map(|(id, s)| json!({"id": id, "state": state_json(s)})).collect::<Vec<_>>(),
+                    "call": call_json(&a), "result": res_json(&ra), "locks": sk.instrs, "sections": sk.section_ordinals.len()});
+                match (&post, g_res(&ra)) {
+                    (Ok(p), Some(gr)) if sk.anomalies.is_empty() => out.coq_solo.push(format!(
+                        "({}%nat, skel_check 1%nat {} {} {} {} [{}])", id_no, g_shared(&sts), g_call(&a), gr, g_post(p), sk.instrs.join("; "))),
+                    _ => {
+                        case["harness_problem"] = json!(format!("anomalies {:?} / undecodable post-state or result", sk.anomalies));
+                        out.harness_problems.push(case.clone());
+                    }
+                }
+                out.all_cases.push(case);
+            }
+            if !sk.anomalies.is_empty() {
+                continue;
+            }
+            let nsec = sk.section_ordinals.len();
+            for (j, ord) in sk.section_ordinals.iter().enumerate() {
+                refresh_world(&mut w, scratch);
+                for (id, s) in &sts {
+                    plant(&mut w, *id, s);
+                }
+                let d = directed(&w, &a, &b, *ord);
+                let rf = exec(&w.eng, &follow);
+                let post: Result<Vec<(u64, IdState)>, String> = sts.iter().map(|(id, _)| observe(&w, dg, *id).map(|s| (*id, s))).collect();
+                let id_no = *case_no;
+                *case_no += 1;
+                out.hist(&format!("directed-at-limit/{}|{}", op_name(&a), op_name(&b)));
+                let mut case = json!({"case": id_no, "kind": "directed", "hard_limit": 1, "state_name": sname,
+                    "states": sts.iter().map(|(id, s)| json!({"id": id, "state": state_json(s)})).collect::<Vec<_>>(),
+                    "thread_A": call_json(&a), "thread_B": call_json(&b), "then": call_json(&follow),
+                    "schedule": format!("hot_tier_hard_limit = 1. A performs {} of its {} atomic steps; B runs to completion; A resumes; after both returned: the point read", j, nsec),
+                    "pause_before_section": j, "pause_at_acquisition_ordinal": ord,
+                    "result_A": res_json(&d.ra), "result_B": res_json(&d.rb), "result_then": res_json(&rf)});
+                let mut problem = None;
+                if d.gate_timeout || !d.gate_fired {
+                    problem = Some(format!("gate did not act as planned (fired={}, timeout={})", d.gate_fired, d.gate_timeout));
+                }
+                match (&post, g_res(&d.ra), g_res(&d.rb), g_res(&rf)) {
+                    (Ok(p), Some(ga), Some(gb), Some(gf)) if problem.is_none() => out.coq_dir.push(format!(
+                        "({}%nat, phase_check 1%nat {} [[{}]; [{}]; [{}]] [(0%nat, Some {}%nat); (1%nat, None); (0%nat, None); (2%nat, None)] [(0%nat, 0%nat, {}); (1%nat, 0%nat, {}); (2%nat, 0%nat, {})] {})",
+                        id_no, g_shared(&sts), g_call(&a), g_call(&b), g_call(&follow), j, ga, gb, gf, g_post(p))),
+                    _ if problem.is_none() => problem = Some("post-state or result not decodable".to_string()),
+                    _ => {}
+                }
+                if let Some(p) = &problem {
+                    case["harness_problem"] = json!(p);
+                    out.harness_problems.push(case.clone());
+                }
+                // a PLANTED orphan mirror (no canonical record, not reachable through the API alone) is repaired by any
+                // drain: that is the sequential C04 class (C04_orphan_repair_refuted, demanded by the repo's own test);
+                // those schedules are kept for the model correspondence only
+                let planted_orphan = st.cold.is_none() && st.hot.is_some();
+                if planted_orphan {
+                    case["oracles"] = json!("skipped: planted orphan mirror (C04 orphan-repair class)");
+                } else {
+                    for (k, why) in seq_oracles(&sts, &[("A", &a, &d.ra, 0, 3), ("B", &b, &d.rb, 1, 2), ("then", &follow, &rf, 4, 5)]) {
+                        out.oracle_failures.push(json!({"kind": k, "why": why, "case": case.clone()}));
+                    }
+                }
+                if matches!(a, Call::Insert(..)) && d.ra == Res::Ins(false) {
+                    out.observe("insert-answered-Err-after-its-cold-tier-write-took-effect", case.clone());
+                }
+                if j > 0 {
+                    out.nontrivial.insert(format!("L|{}|{:?}|{:?}|{}|{:?}|{:?}|{:?}", sname, a, b, j, d.ra, d.rb, rf));
+                }
+                out.all_cases.push(case);
+            }
+        }
+    }
 }
 
 fn run_solo_and_directed(w: &mut World, scratch: &str, cl: &mut Classes, dg: &Digests, out: &mut Out, quick: bool, case_no: &mut usize) {
@@ -833,8 +956,8 @@ fn run_solo_and_directed(w: &mut World, scratch: &str, cl: &mut Classes, dg: &Di
             match (&post, g_res(&ra)) {
                 (Ok(p), Some(gr)) if problem.is_none() => {
                     out.coq_solo.push(format!(
-                        "({}%nat, skel_check {} {} {} {} [{}])",
-                        id_no, g_shared(&sts), g_call(&a), gr, g_post(p), sk.instrs.join("; ")
+                        "({}%nat, skel_check {}%nat {} {} {} {} [{}])",
+                        id_no, w.hard, g_shared(&sts), g_call(&a), gr, g_post(p), sk.instrs.join("; ")
                     ));
                 }
                 (Err(e), _) => problem = Some(format!("post-state not decodable: {}", e)),
@@ -886,8 +1009,8 @@ fn run_solo_and_directed(w: &mut World, scratch: &str, cl: &mut Classes, dg: &Di
                     match (&post, g_res(&d.ra), g_res(&d.rb)) {
                         (Ok(p), Some(ga), Some(gb)) if problem.is_none() => {
                             out.coq_dir.push(format!(
-                                "({}%nat, phase_check {} [[{}]; [{}]] [(0%nat, Some {}%nat); (1%nat, None); (0%nat, None)] [(0%nat, 0%nat, {}); (1%nat, 0%nat, {})] {})",
-                                id_no, g_shared(&sts), g_call(&a), g_call(&b), j, ga, gb, g_post(p)
+                                "({}%nat, phase_check {}%nat {} [[{}]; [{}]] [(0%nat, Some {}%nat); (1%nat, None); (0%nat, None)] [(0%nat, 0%nat, {}); (1%nat, 0%nat, {})] {})",
+                                id_no, w.hard, g_shared(&sts), g_call(&a), g_call(&b), j, ga, gb, g_post(p)
                             ));
                         }
                         (Err(e), _, _) => problem = Some(format!("post-state not decodable: {}", e)),
@@ -1176,7 +1299,7 @@ fn run_stress_phase(w: &mut World, scratch: &str, cl: &mut Classes, out: &mut Ou
 fn replay(path: &str, scratch: &str, out: &mut Out, cl: &mut Classes, dg: &Digests) {
     let v: Value = serde_json::from_slice(&std::fs::read(path).expect("replay file")).expect("replay json");
     let case = if v.get("case").map(|c| c.is_object()).unwrap_or(false) { v["case"].clone() } else { v.clone() };
-    let mut w = mk_world(scratch);
+    let mut w = mk_world_limit(scratch, case["hard_limit"].as_u64().unwrap_or(5000) as usize);
     match case["kind"].as_str().unwrap_or("") {
         "directed" | "solo" => {
             let sts: Vec<(u64, IdState)> = case["states"].as_array().unwrap().iter().map(|s| (s["id"].as_u64().unwrap(), state_from_json(&s["state"]))).collect();
@@ -1201,6 +1324,17 @@ fn replay(path: &str, scratch: &str, out: &mut Out, cl: &mut Classes, dg: &Diges
             let mut c2 = case.clone();
             c2["result_A"] = res_json(&d.ra);
             c2["result_B"] = res_json(&d.rb);
+            if !case["then"].is_null() {
+                let f = call_from_json(&case["then"]);
+                let rf = exec(&w.eng, &f);
+                println!("replay directed: then {:?} -> {:?}", f, rf);
+                c2["result_then"] = res_json(&rf);
+                for (k, why) in seq_oracles(&sts, &[("A", &a, &d.ra, 0, 3), ("B", &b, &d.rb, 1, 2), ("then", &f, &rf, 4, 5)]) {
+                    out.oracle_failures.push(json!({"kind": k, "why": why, "case": c2.clone()}));
+                }
+                out.all_cases.push(c2);
+                return;
+            }
             for (k, why) in directed_oracles(&sts, &a, &d.ra, &b, &d.rb) {
                 out.oracle_failures.push(json!({"kind": k, "why": why, "case": c2.clone()}));
             }
@@ -1270,6 +1404,7 @@ fn main() {
     } else {
         let mut w = mk_world(&scratch);
         run_solo_and_directed(&mut w, &scratch, &mut cl, &dg, &mut out, quick, &mut case_no);
+        run_drain_family(&scratch, &mut cl, &dg, &mut out, &mut case_no);
         n_solo = out.all_cases.iter().filter(|c| c["kind"] == "solo").count();
         n_dir = out.all_cases.iter().filter(|c| c["kind"] == "directed").count();
         let before = out.all_cases.len();
